@@ -916,6 +916,11 @@ func (fc *FnCtx) buildQuery(guard, negGoal string, lite bool) string {
 	if !lite {
 		cong = fc.congruence(body + guard + negGoal)
 	}
+	if !lite {
+		if pa := fc.pairAxioms(body + guard + negGoal); pa != "" {
+			cong += pa
+		}
+	}
 	if cong != "" {
 		body = fc.smt.slice(guard, negGoal, cong)
 	}
